@@ -23,9 +23,19 @@ def main():
         return mod.check(a.tier, seed)
     except SystemExit:
         raise
-    except Exception:
+    except Exception as e:
         traceback.print_exc()
-        return 2
+        from .runner import ToolFailure, Report
+        import subprocess
+        if a.replay or isinstance(e, (ToolFailure, OSError, MemoryError, subprocess.SubprocessError, KeyboardInterrupt)):
+            return 2
+        # the evaluation of the real code's observations raised: what the code does no longer fits the harness that ties it to the
+        # model, so the property is no longer shown to hold (DESIGN.md section 6); no failing input is at hand
+        rep = Report(a.pid, a.tier, seed)
+        rep.violation(dict(kind='unproved', broken=[dict(kind='harness-evaluation-error', error=f'{type(e).__name__}: {e}',
+                                                         where=traceback.format_exc()[-1500:])],
+                           note='the check could not evaluate the observations of the real code'), found_input=False, name='unproved')
+        return rep.finish()
 
 
 if __name__ == '__main__':
